@@ -255,6 +255,48 @@ def run(ctx):
               "solve_pressure does not hand frame `when` its own result together with the same matrix' mapping_order")
 
 
+    ctx.clause("no state is shared between solver objects or between calls: class-level containers and mutable defaults are never mutated")
+    n_cls = 0
+    for cq, c in sorted(repo.classes.items()):
+        shared = {}
+        for stt in c.node.body:
+            tgt = val = None
+            if isinstance(stt, ast.Assign) and len(stt.targets) == 1 and isinstance(stt.targets[0], ast.Name):
+                tgt, val = stt.targets[0].id, stt.value
+            elif isinstance(stt, ast.AnnAssign) and isinstance(stt.target, ast.Name) and stt.value is not None:
+                tgt, val = stt.target.id, stt.value
+            if tgt is None:
+                continue
+            mutable = isinstance(val, (ast.Dict, ast.List, ast.Set, ast.DictComp, ast.ListComp, ast.SetComp)) or \
+                (isinstance(val, ast.Call) and isinstance(val.func, ast.Name) and val.func.id in ("dict", "list", "set", "defaultdict"))
+            if mutable:
+                shared[tgt] = stt
+        n_cls += 1
+        for name, stt in shared.items():
+            sites = [(fq, st_) for fq, st_ in repo.writers_of(name, kinds=("elem", "mut", "del_elem")) if fq.cls is not None and
+                     any(k.qualname == cq for k in repo.mro(fq.cls))]
+            rebinds = [(fq, st_) for fq, st_ in repo.writers_of(name, kinds=("rebind",)) if fq.cls is not None and fq.name in ("__init__", "__post_init__")
+                       and any(k.qualname == cq for k in repo.mro(fq.cls))]
+            if sites and not rebinds:
+                fq, st_ = sites[0]
+                ctx.violation("STATE", f"{cq} / STATE / class-level container `{name}` mutated by an instance method", ctx.where(fq, st_["node"]),
+                              f"`{name}` is created once in the class body and shared by every {c.name} object; `{fq.module.line(st_['node'].lineno)}` writes into it, "
+                              f"so what one object computed (keyed by ids that other tissues reuse) leaks into later objects")
+    ctx.ok("STATE", "package / STATE / class-level mutable attributes scanned", "forsys/*", f"{n_cls} classes")
+    roots = [f"{FS}.build_force_matrix", f"{FS}.solve_stress", f"{FS}.build_pressure_matrix", f"{FS}.solve_pressure", f"{FS}.get_system_velocity_per_frame",
+             f"{FS}.__post_init__", f"{FR}.__post_init__"]
+    n_def = 0
+    for q in sorted(repo.reachable(roots)):
+        fq = repo.functions[q]
+        for pname, d in fq.defaults().items():
+            if isinstance(d, (ast.Dict, ast.List, ast.Set)):
+                n_def += 1
+                muts = [st_ for st_ in repo.stores(fq) if st_["attr"] == "$" + pname and st_["kind"] in ("elem", "mut", "del_elem")]
+                for st_ in muts:
+                    ctx.violation("STATE", f"{q} / STATE / mutable default argument `{pname}` mutated", ctx.where(fq, st_["node"]),
+                                  f"`{fq.module.line(st_['node'].lineno)}` writes into the default value of `{pname}`, which is shared by all calls")
+    ctx.ok("STATE", "closure / STATE / mutable default arguments scanned", "forsys/*", f"{n_def} mutable defaults on the inference closure, none mutated" if True else "")
+
     ctx.clause("the matrices of frame t are built from frame t's own data")
     for builder, store, ctor in (("build_force_matrix", "force_matrices", "new:forsys.fmatrix.ForceMatrix"),
                                  ("build_pressure_matrix", "pressure_matrices", "new:forsys.pmatrix.PressureMatrix")):
@@ -274,6 +316,7 @@ def run(ctx):
 
 _P, _S, _F, _G = "forsys/fmatrix.py", "forsys/forsys.py", "forsys/frames.py", "forsys/general_matrix.py"
 PINNED = [
+    ("class-level orientation cache in PressureMatrix", "forsys/pmatrix.py", "    def __init__(self, frame: object, timeseries: dict):", "    cell_orientation = {}\n\n    def __init__(self, frame: object, timeseries: dict):\n        self.cell_orientation[id(frame)] = True"),
     ("pressure matrix always built from frame 0", _S, "self.pressure_matrices[when] = pmatrix.PressureMatrix(self.frames[when],", "self.pressure_matrices[when] = pmatrix.PressureMatrix(self.frames[0],"),
     ("force matrix stored under the previous key", _S, "self.force_matrices[when] = fmatrix.ForceMatrix(self.frames[when],", "self.force_matrices[max(when - 1, 0)] = fmatrix.ForceMatrix(self.frames[when],"),
     ("F2 reintroduced: pressures rebound", _S, "self.pressures[when] = self.pressure_matrices[when].solve_system(**kwargs)\n        self.frames[when].assign_pressures(self.pressures[when],",
